@@ -4,8 +4,9 @@ verus! {
 pub struct RaftIndex { pub vx: u64 }
 impl PbMessage for RaftIndex { uninterp spec fn pb_bytes(&self) -> Seq<u8>; }
 impl Default for RaftIndex {
+    /// the all-default message has a (tiny) encoding
     #[verifier::external_body]
-    fn default() -> Self { unimplemented!() }
+    fn default() -> (r: Self) ensures r.pb_bytes().len() < 0x1_0000_0000 { unimplemented!() }
 }
 /// DTO <-> message conversion (assumed round trip)
 pub uninterp spec fn msg_of(d: RaftIndexDto) -> RaftIndex;
